@@ -22,8 +22,8 @@ TEXT = {
   "tree-builder feedback is never lost: every state function is verified to leave the machine in a state whose text type is the current one (st_type), emit_tag/finish_tag_name/try_get_tree_builder_feedback are verified on the real bodies; the text-type table, the foreign-content exit list, the ambiguity guard (refuses exactly inside select/template-in-select/frameset) and LocalNameHash::update are proved over the full u64 domain by Kani. Equivalence of the ~70 transition tables with the WHATWG tokenizer is NOT decided.",
   "WHATWG table equivalence not decided (would require the standard as a spec); RequestLexeme callbacks are opaque; A-parse-loop"),
  "C04": ("proof",
-  "leaf semantics only: :nth-child arithmetic is proved equal to the CSS An+B definition over all i32 triples (Kani, complete); the six attribute operators with both case modes and attribute lookup are checked against spec functions on bounded strings (Kani, bounded). One known finding (F-C04-1, :not() with a compound argument).",
-  "cssparser/selectors parsing, the compiler and the VM's jump/bail-out logic are not under contract yet (bounded VM harness planned); hashbrown maps trusted"),
+  "leaf semantics only: NthChild::has_index is proved equal to the CSS An+B definition (exists n >= 0. A*n+B == index) for all i32 triples, with no overflow (Verus, real body, nonlinear lemmas); the six attribute operators with all case modes and first-match case-insensitive attribute lookup are checked against spec functions on bounded strings (Kani, bounded, not counted)",
+  "cssparser/selectors parsing, the selector compiler and the VM's jump/bail-out logic are not under contract (bounded stand-in only); hashbrown maps trusted; known finding F-C04-1 (:not() with a compound argument)"),
  "C05": ("proof",
   "the dispatcher flushes pending text before a tag reaches the controller and calls handle_end once after the last flush (Verus, real bodies); HandlerVec's for_each_active / deactivate / remove_tail call exactly the active handlers once, in the documented order, and keep user_count == sum of item counts (Kani, vector length <= 3, symbolic counts: bounded)",
   "user handlers are environment; which elements match is C04; ContentHandlersDispatcher::{start,stop}_matching composition bounded only"),
@@ -33,6 +33,9 @@ TEXT = {
  "C07": ("proof",
   "the edit algebra is verified on the real bodies: MutationsInner::{replace,remove}, DynamicString::{push_front,push_back,clear,encode}, the impl_serialize! expansion for Comment/StartTag/EndTag (output == before ++ (self | replacement) ++ after), serialize_self of the three token kinds, every Element content mutator (after/prepend/append/set_inner_content/replace/remove/remove_and_keep_content incl. the void-element no-ops) against an abstract (start-tag edit, end-tag edit) view, and the dispatcher's emission toggling",
   "Element struct reduced to the fields the mutators touch; Mutations::mutate/if_mutated assumed (A-mutate); attribute list serialisation and text chunks abstract; streaming handlers environment"),
+ "C08": ("proof",
+  "attribute values: escape_double_quotes_only is proved, for every byte string, to emit exactly the input with each `\"` replaced by `&quot;` (Verus, real loop with an inductive invariant), <&Attribute as Serialize>::into_bytes emits name=\"<escaped value>\" and the part between the quotes is proved quote-free, so a value can never close the attribute it is written into; text escaping (escape_body_text) and the validators of names / comment text are bounded only (Kani harnesses on short strings, re-parse check of the real crate in U-PARSE-B)",
+  "A-split (std split_at_checked/get(1..) glue replaced by an assumed helper), A-memchr; escape_body_text, set_tag_name/set_attribute name validation, Comment::set_text and encoding of inserted content are NOT under a deductive contract (bounded stand-ins only); encoding_rs trusted"),
  "C09": ("proof",
   "consumed == f(registers) (get_consumed_byte_count, break_on_end_of_input), emit actions move lexeme_start to the lexeme end, tag_start is held exactly in the states between '<' and the end of the tag name (st_hold, all 74 state functions), finish_tag_name releases it on every path, and an end of input in a text state holds nothing back (uniform postcondition); write() keeps exactly chunk[consumed..]. Schedule independence is relational and only bounded.",
   "A-parse-loop; look-ahead length bound not stated as a contract"),
